@@ -284,6 +284,22 @@ func c11RunInner(c c11Case) explore.Result {
 		_ = wantCB
 		return res
 	}
+	if c.Behave == "gss-then-ssl" {
+		// a client that tries GSSAPI encryption first (libpq, gssencmode=prefer): the server may hang up or decline
+		// with 'N'; if it declines, the SSLRequest that follows is answered as if it had come first
+		out, st := one.Step(pgproto.Untyped([]byte{0x04, 0xd2, 0x16, 0x30}))
+		res.Outcome = "refused"
+		if st == memnet.Closed {
+			if len(out) != 0 {
+				res.Fail("gss-refusal", fmt.Sprintf("%s: GSSENCRequest answered % x before the connection was closed", c, out))
+			}
+			return res
+		}
+		if string(out) != "N" {
+			res.Fail("gss-refusal", fmt.Sprintf("%s: GSSENCRequest answered % x (expected the single byte N or a closed connection)", c, out))
+			return res
+		}
+	}
 	// every other behaviour starts with an SSLRequest
 	first := pgproto.SSLRequest()
 	switch c.Behave {
@@ -585,6 +601,18 @@ func c11Enumerate(tier string, emit explore.Emit) {
 			emit(explore.Case{Family: "tls-pipelined", Size: 3 + len(hist), Desc: func() any { return c.String() }, Run: func() explore.Result { return c11Run(c) }})
 		})
 	}
+	for _, cfg := range []string{"nil", "empty", "certs"} {
+		c := c11Case{Cfg: cfg, Behave: "gss-then-ssl", Hist: []c11Letter{letters[0]}}
+		emit(explore.Case{Family: "tls", Size: 2, Desc: func() any { return c.String() }, Run: func() explore.Result { return c11Run(c) }})
+	}
+	// certificates that arrive later: the application holds the *tls.Config it handed over and adds the
+	// certificate to it once it has been issued; from then on SSLRequests are answered S
+	for _, before := range []int{0, 1, 3} {
+		before := before
+		emit(explore.Case{Family: "certificates-added-later", Size: 3 + before,
+			Desc: func() any { return map[string]any{"ssl_requests_before_the_certificate_exists": before} },
+			Run:  func() explore.Result { return c11RunLateCerts(before) }})
+	}
 	for _, c := range c11ClientCertCases() {
 		c := c
 		emit(explore.Case{Family: "tls-client-certificate", Size: 4, Desc: func() any { return c.String() }, Run: func() explore.Result { return c11Run(c) }})
@@ -601,6 +629,51 @@ func c11Enumerate(tier string, emit explore.Emit) {
 		c := c
 		emit(explore.Case{Family: "tls-limit", Size: 3, Desc: func() any { return c.String() }, Run: func() explore.Result { return c11Run(c) }})
 	}
+}
+
+func c11RunLateCerts(before int) explore.Result {
+	var res explore.Result
+	res.Outcome = "upgraded"
+	res.Key = fmt.Sprint("late-certs", before)
+	cfg := &tls.Config{}
+	rec := &script.Rec{Extra: copyHandler}
+	srv, err := harness.NewServer(rec.ParseFn(), wire.TLSConfig(cfg))
+	if err != nil {
+		res.Engine = err.Error()
+		return res
+	}
+	defer srv.Stop()
+	for i := 0; i < before; i++ {
+		c := srv.Connect()
+		if out, _ := c.Step(pgproto.SSLRequest()); string(out) != "N" {
+			res.Fail("ssl-refusal", fmt.Sprintf("SSLRequest %d without certificates answered % x", i+1, out))
+			return res
+		}
+		c.End()
+	}
+	cfg.Certificates = []tls.Certificate{c11Certificate()}
+	c := srv.Connect()
+	out, _ := c.Step(pgproto.SSLRequest())
+	if string(out) != "S" {
+		res.Fail("ssl-accept", fmt.Sprintf("a certificate was added to the configured tls.Config after %d SSLRequests had been declined; the next SSLRequest was answered % x, expected S", before, out))
+		return res
+	}
+	ce := memnet.NewClientEnd(c.C)
+	tc := tls.Client(ce, &tls.Config{InsecureSkipVerify: true, ServerName: "verif"})
+	hs := make(chan error, 1)
+	go func() { hs <- tc.Handshake() }()
+	select {
+	case err := <-hs:
+		if err != nil {
+			res.Fail("handshake-failed", fmt.Sprintf("certificate added after %d declined requests: TLS handshake failed: %v", before, err))
+		}
+	case <-time.After(memnet.Watchdog):
+		res.Poison = true
+		res.Fail("handshake-stalled", "the server answered S but never completes the handshake")
+	}
+	ce.Close()
+	res.Trans = []string{"no-certs|certificate added|upgraded"}
+	return res
 }
 
 // c11ClientCertCases: whatever the server's TLS configuration asks of the client's certificate and whatever the
